@@ -291,11 +291,16 @@ class Sim:
         self.net.connect_policy = policy
         return dev
 
-    def client(self, address: str = "10.0.0.1", port: int = 6053, password: str | None = None, *, outside_loop: bool = False, **kw: Any) -> Any:
+    def client(self, address: str = "10.0.0.1", port: int = 6053, password: str | None = None, *, outside_loop: bool = False,
+               debug: bool | None = None, **kw: Any) -> Any:
         from aioesphomeapi import APIClient
 
         global _CLIENTS_MADE
         _CLIENTS_MADE += 1
+        # every 4th client of the process (or as the scenario says) runs with the library's logger at DEBUG and its debug flag on: the
+        # debug-only branches (extra logging, but also control flow that differs, e.g. in the keep-alive sender) are code under test
+        debug_ = rotation.decide("client_debug", (False, False, False, True)) if debug is None else rotation.record("client_debug_fixed", bool(debug))
+        logcfg.set_debug(bool(debug_))   # the logger level at construction decides the client's debug flag, as in production
         if outside_loop:
             # the application builds its client in synchronous set-up code and only then starts the loop that runs the connection
             # (`client = APIClient(...)` followed by `asyncio.run(main())`): whatever loop is current at construction is NOT the one
@@ -312,12 +317,8 @@ class Sim:
                 asyncio._set_running_loop(running)  # noqa: SLF001
         else:
             cli = APIClient(address, port, password, **kw)
-        debug = rotation.decide("client_debug", (False, False, False, True))
-        logcfg.set_debug(bool(debug))   # the logger level at construction decides the client's debug flag, as in production; set_debug() below keeps them consistent
-        if debug:
-            # every 4th client of the process runs with the library's debug flag on: the debug-only branches (extra logging, but also
-            # control flow that differs, e.g. in the keep-alive sender) are part of the code under test
-            cli.set_debug(True)
+        cli.set_debug(bool(debug_))
+        if debug_:
             self.debug_clients += 1
         return cli
 
